@@ -3,7 +3,7 @@
    Histories are lists of lop of ANY length, the limit is ANY integer >= 1, any number of blocked producers and waiting
    consumers.  `lq_reach limit ops` is the state of the transcription of limited_queue<T> (as repaired by fa14f83) after
    the history; `lgood` is the invariant every destruction-free history establishes (c10_invariant_reachable). *)
-From Cocls Require Import Base BaseProofs QueueDefs QueueProofs QueueConcProofs QueueOrderProofs.
+From Cocls Require Import Base BaseProofs QueueDefs QueueProofs QueueConcProofs QueueOrderProofs QueueOracleProofs.
 Local Open Scope Z_scope.
 
 (* refinement: for every history whose constructor calls ask for limit >= 1 the model's observations are those of the
@@ -91,16 +91,17 @@ Theorem c10_oracle_accepts_model : forall ops, limits_ok (map lq_decode ops) -> 
 Proof. exact lq_oracle_accepts_model. Qed.
 Print Assumptions c10_oracle_accepts_model.
 
-(* ---- interleaving model (limited_queue<T>, any limit >= 1): ANY number of producer / consumer / unblock_pop threads, ANY schedule of ANY length.
+(* ---- interleaving model (limited_queue<T>, any limit >= 1): ANY number of producer / consumer / unblock_pop / unblock_push / size threads and a destroyer thread, ANY schedule of ANY length.
    A push or pop is a critical section followed, after the unlock, by a separate step that resolves the promise taken
    inside (QueueDefs.tstep).  In every reachable state the items pushed so far (every producer's first k values, tagged
    with producer and index, hence pairwise distinct: NoDup) are exactly, as a multiset, the items received by pops + the
-   items in flight between a critical section and its resolution + the queued items + the items held by blocked pushes;
+   items in flight between a critical section and its resolution + the queued items + the items held by blocked pushes +
+   the items withdrawn by unblock_push + the items destroyed with the queue;
    and items / waiting consumers are never both non-empty. ---- *)
 Theorem c10_conc_conservation : forall limit thrs s, 1 <= limit -> Forall t_fresh thrs -> t_reachable (Some limit) thrs s ->
   NoDup (t_plog s) /\
   Permutation (t_plog s)
-    (map snd (ritems (t_rlog s)) ++ map snd (iitems (t_infl s)) ++ t_items s ++ map fst (t_blocked s)) /\
+    (map snd (ritems (t_rlog s)) ++ map snd (iitems (t_infl s)) ++ t_items s ++ map fst (t_blocked s) ++ t_wlog s ++ t_dlog s) /\
   (forall p, filter (of_p p) (t_plog s) = expected_plog p (nth_error (t_thr s) p)) /\
   (t_items s = [] \/ t_waiters s = []).
 Proof. intros limit thrs s L. exact (tq_conservation (Some limit) thrs s L). Qed.
@@ -113,17 +114,26 @@ Theorem c10_conc_per_producer_order : forall limit thrs s c p, (1 <= limit)%Z ->
 Proof. intros limit thrs s c p L. exact (tq_per_producer_order (Some limit) thrs s c p L). Qed.
 Print Assumptions c10_conc_per_producer_order.
 
-(* items are matched to pops in critical-section order, which is a prefix of the push order; what a consumer has
-   received plus what is in flight for it is exactly its share of that matching, in order (single consumer: FIFO) *)
-Theorem c10_conc_assignment_prefix : forall limit thrs s, (1 <= limit)%Z -> Forall t_fresh thrs -> t_reachable (Some limit) thrs s ->
-  t_plog s = map snd (t_alog s) ++ t_items s ++ map fst (t_blocked s) /\
+(* items are matched to pops in critical-section order; matched ++ queued ++ held-by-blocked is, producer by producer, in
+   push order (nothing overtakes, also not while producers are blocked); what a consumer has received plus what is in
+   flight for it is exactly its share of the matching, in order (single consumer: FIFO) *)
+Theorem c10_conc_assignment_in_push_order : forall limit thrs s, (1 <= limit)%Z -> Forall t_fresh thrs -> t_reachable (Some limit) thrs s ->
+  (forall p, Sorted.StronglySorted lt (map it_k (filter (of_p p) (map snd (t_alog s) ++ t_items s ++ map fst (t_blocked s))))) /\
   forall c, map snd (filter (is_c c) (t_alog s)) = got c s ++ map snd (filter (is_c c) (iitems (t_infl s))).
-Proof. intros limit thrs s L. exact (tq_assignment_is_push_prefix (Some limit) thrs s L). Qed.
-Print Assumptions c10_conc_assignment_prefix.
+Proof. intros limit thrs s L. exact (tq_assignment_in_push_order (Some limit) thrs s L). Qed.
+Print Assumptions c10_conc_assignment_in_push_order.
+
+(* the oracle that is run on the implementation's controlled-thread traces (replay of the critical sections on the atomic
+   thread-level FIFO, QueueDefs.tq_oracle) accepts every trace the model itself produces: every case file, any threads
+   (fewer than 777, the marker of the deadlock line), any schedule *)
+Theorem c10_thread_oracle_accepts_model : forall ops,
+  (length (flat_map (t_decode_thr true) ops) < 777)%nat -> tq_oracle true ops (tq_run true ops) = true.
+Proof. exact (tq_oracle_accepts_model true). Qed.
+Print Assumptions c10_thread_oracle_accepts_model.
 
 Example c10_conc_nonvacuous :
-  let thrs := flat_map t_decode_thr [[1; 101; 102; 103]; [2; 3]]%Z in
-  let s := fst (t_run_sched 3 (t_init (Some 1%Z) thrs) [0; 0; 0]%Z []) in
+  let thrs := flat_map (t_decode_thr true) [[1; 101; 102; 103]; [2; 3]]%Z in
+  let s := fst (t_run_sched 5 (t_init (Some 1%Z) thrs) [0; 0; 0; 0; 0]%Z []) in
   Forall t_fresh thrs /\ t_reachable (Some 1%Z) thrs s /\
   map it_v (t_items s) = [101]%Z /\ map (fun b => it_v (fst b)) (t_blocked s) = [102]%Z.
 Proof. split; [apply t_decode_fresh|]. split; [eexists; eexists; eexists; reflexivity|]. vm_compute. repeat split. Qed.
